@@ -142,12 +142,12 @@ let register (reg : string -> (string list -> string) -> unit) : unit =
         | _ -> failwith "enc") in
       string01_of_bool acc ^ string01_of_bool rep
     | _ -> "?");
-  (* frm_j2k_accepts len w h c p levels cbw cbh layers prog tw th quality lossless -> "ab" *)
+  (* frm_j2k_accepts len w h c p levels cbw cbh layers prog tw th quality lossless ncustomquant -> "ab" *)
   reg "frm_j2k_accepts" (fun a -> match a with
-    | [len; w; h; c; p; lv; cbw; cbh; ly; pr; tw; th; q; ll] ->
+    | [len; w; h; c; p; lv; cbw; cbh; ly; pr; tw; th; q; ll; ncq] ->
       let k = { FrmValidate.k_len = z len; k_w = z w; k_h = z h; k_c = z c; k_p = z p; k_levels = z lv;
                 k_cbw = z cbw; k_cbh = z cbh; k_layers = z ly; k_prog = z pr; k_tw = z tw; k_th = z th;
-                k_quality = z q; k_lossless = (ll = "1") } in
+                k_quality = z q; k_lossless = (ll = "1"); k_ncq = z ncq } in
       string01_of_bool (FrmValidate.j2k_accepts k) ^ string01_of_bool (FrmValidate.j2k_representable k)
     | _ -> "?");
   let oc o = match o with Base.Ok _ -> "ok" | Base.Err -> "err" | Base.Panic -> "panic" | Base.OutOfFuel -> "fuel" in
